@@ -99,3 +99,26 @@ Definition list_max_opt (l : list N) : option N :=
   match l with [] => None | x :: r => Some (fold_left N.max r x) end.
 Definition list_min_opt (l : list N) : option N :=
   match l with [] => None | x :: r => Some (fold_left N.min r x) end.
+
+(* v.sort_by_key(|x| key x): a stable sort (insertion, the last element inserted first, so equal keys
+   keep their input order); v.sort_unstable() on integers is the same function with the identity key *)
+Fixpoint insert_by_key_N {A} (key : A -> N) (x : A) (l : list A) : list A :=
+  match l with
+  | [] => [x]
+  | y :: t => if N.leb (key x) (key y) then x :: l else y :: insert_by_key_N key x t
+  end.
+Definition sort_by_key_N {A} (key : A -> N) (l : list A) : list A := fold_right (insert_by_key_N key) [] l.
+Fixpoint insert_by_key_nat {A} (key : A -> nat) (x : A) (l : list A) : list A :=
+  match l with
+  | [] => [x]
+  | y :: t => if Nat.leb (key x) (key y) then x :: l else y :: insert_by_key_nat key x t
+  end.
+Definition sort_by_key_nat {A} (key : A -> nat) (l : list A) : list A := fold_right (insert_by_key_nat key) [] l.
+
+(* it.fold(init, |acc, x| body) with a body that may panic; it.enumerate() *)
+Fixpoint fold_m {A B} (f : B -> A -> option B) (l : list A) (b : B) : option B :=
+  match l with
+  | [] => Some b
+  | x :: r => do b' <- f b x; fold_m f r b'
+  end.
+Definition enumerate {A} (l : list A) : list (nat * A) := combine (seq 0 (length l)) l.
